@@ -124,9 +124,16 @@ def load_findings() -> dict:
     return json.load(open(p))
 
 
-def match_finding(findings: dict, pid: str, obname: str) -> Optional[dict]:
+def match_finding(findings: dict, pid: str, obname: str, failures=None) -> Optional[dict]:
+    """A known finding matches an obligation by name pattern AND (when it lists one) by the concrete
+    failing inputs: every failing input label must match ``input_regex`` — a different failing input
+    of the same obligation is still reported as a violation."""
     for f in findings.get("known", []):
         if f["property"] == pid and any(fnmatch.fnmatchcase(obname, pat) for pat in f["obligations"]):
+            rx = f.get("input_regex")
+            if rx and failures:
+                if not all(re.search(rx, str(x)) for x in failures):
+                    continue
             return f
     return None
 
@@ -208,7 +215,7 @@ def decide(pid: str, tier: str, unit_results: Dict[str, dict], units: List[Unit]
             # refuted / bounded-fail
             if st == REFUTED and o.get("replay") and "native" not in o:
                 o["native"] = run_replay_recipe(o["replay"])
-            kf = match_finding(findings, pid, o["name"])
+            kf = match_finding(findings, pid, o["name"], o.get("failures"))
             if kf is not None:
                 v.known.append({"finding": kf, "obligation": o})
             else:
@@ -225,7 +232,10 @@ def report(v: Verdict, evidence_extra: dict, wall_s: float, level_if_complete: s
             continue
         seen_known.add(key)
         print(f"KNOWN-FINDING: property={v.pid} {k['finding']['what']}")
-    for o in v.violations:
+    for n_v, o in enumerate(v.violations):
+        if n_v >= 40:
+            print(f"... and {len(v.violations) - 40} more violated obligations (see evidence/replays)")
+            break
         path = write_replay(v.pid, o)
         nat = o.get("native") or {}
         reproduced = o["status"] == BOUNDED_FAIL or nat.get("reproduced")
